@@ -944,6 +944,22 @@ func (c *Ctx) boundedFor(h *ssa.BasicBlock, body map[*ssa.BasicBlock]bool) (bool
 		default:
 			continue
 		}
+		// `i + k < n` / `i - k < n` with a constant k is the same test on i
+		for {
+			off, isOff := iv.(*ssa.BinOp)
+			if !isOff || (off.Op != token.ADD && off.Op != token.SUB) {
+				break
+			}
+			if _, isC := off.Y.(*ssa.Const); isC {
+				iv = off.X
+				continue
+			}
+			if _, isC := off.X.(*ssa.Const); isC && off.Op == token.ADD {
+				iv = off.Y
+				continue
+			}
+			break
+		}
 		phi, ok := iv.(*ssa.Phi)
 		if !ok || !body[phi.Block()] {
 			continue
